@@ -13,6 +13,7 @@ pub struct Args {
     pub out: String,
     pub resume_after: Option<u64>,
     pub only: Option<u64>,
+    pub skip: Vec<u64>,
     pub progress: Option<String>,
     pub seed: u64,
     pub replay: Option<String>,
@@ -29,6 +30,7 @@ impl Args {
             out: String::new(),
             resume_after: None,
             only: None,
+            skip: Vec::new(),
             progress: None,
             seed: 0,
             replay: None,
@@ -47,6 +49,7 @@ impl Args {
                 "--out" => a.out = it.next().unwrap(),
                 "--resume-after" => a.resume_after = Some(it.next().unwrap().parse().unwrap()),
                 "--only" => a.only = Some(it.next().unwrap().parse().unwrap()),
+                "--skip" => a.skip = it.next().unwrap().split(',').filter(|x| !x.is_empty()).map(|x| x.parse().unwrap()).collect(),
                 "--progress" => a.progress = Some(it.next().unwrap()),
                 "--seed" => a.seed = it.next().unwrap().parse().unwrap_or(0),
                 "--replay" => a.replay = Some(it.next().unwrap()),
@@ -81,6 +84,9 @@ pub struct Collector {
     pub nshards: usize,
     pub resume_after: Option<u64>,
     pub only: Option<u64>,
+    pub skip: Vec<u64>,
+    pub out_path: String,
+    last_checkpoint: std::time::Instant,
     /// global case counter (every shard walks the whole enumeration)
     pub index: u64,
     pub evaluations: u64,
@@ -128,6 +134,9 @@ impl Collector {
             nshards: a.nshards,
             resume_after: a.resume_after,
             only: a.only,
+            skip: a.skip.clone(),
+            out_path: a.out.clone(),
+            last_checkpoint: std::time::Instant::now(),
             index: 0,
             evaluations: 0,
             nontrivial: 0,
@@ -154,6 +163,7 @@ impl Collector {
         if self.slow >= 8 {
             if self.slow == 8 {
                 self.slow = 9;
+                let _ = std::fs::write(format!("{}.slowstop", self.out_path), b"1");
                 self.caps.push("shard stopped enumerating after 8 slow executions".into());
             }
             return false;
@@ -169,6 +179,15 @@ impl Collector {
             if i <= r {
                 return false;
             }
+        }
+        if self.skip.contains(&i) {
+            return false;
+        }
+        // checkpoint about once per second: a worker death then loses at most that much work
+        if self.progress.is_some() && i % 64 == 0 && self.last_checkpoint.elapsed().as_millis() > 1000 {
+            self.last_checkpoint = std::time::Instant::now();
+            let p = format!("{}.ckpt", self.out_path);
+            self.write(&p, Some(i.saturating_sub(1)));
         }
         *self.spaces.entry(space.to_string()).or_insert(0) += 1;
         if let Some(p) = self.progress {
@@ -211,6 +230,10 @@ impl Collector {
         g.count += 1;
     }
     pub fn finish(&self, out: &str) {
+        self.write(out, None);
+    }
+    /// `upto`: every owned case with index <= upto has been executed (checkpoint)
+    fn write(&self, out: &str, upto: Option<u64>) {
         let failures: Vec<Value> = self
             .failures
             .iter()
@@ -220,6 +243,7 @@ impl Collector {
             .collect();
         let v = json!({
             "prop": self.prop,
+            "checkpoint_upto": upto,
             "shard": self.shard,
             "nshards": self.nshards,
             "cases_enumerated": self.index,
@@ -236,7 +260,9 @@ impl Collector {
             "notes": self.notes,
             "wall_s": self.start.elapsed().as_secs_f64(),
         });
-        std::fs::write(out, serde_json::to_vec(&v).unwrap()).expect("write shard result");
+        let tmp = format!("{}.tmp", out);
+        std::fs::write(&tmp, serde_json::to_vec(&v).unwrap()).expect("write shard result");
+        std::fs::rename(&tmp, out).expect("rename shard result");
     }
 }
 
